@@ -69,6 +69,12 @@ Theorem plain_public : forall pub maps x, before_dot x = None -> is_public pub m
 Proof. exact plain_public_lemma. Qed.
 Print Assumptions plain_public.
 
+(* the diagnostic list that drives the failing-input search names a broken obligation exactly
+   when there is one *)
+Theorem table_gaps_nil_iff : forall tbl aliases, table_gaps tbl aliases = [] <-> table_complete tbl aliases = true.
+Proof. exact table_gaps_nil_iff_lemma. Qed.
+Print Assumptions table_gaps_nil_iff.
+
 (* ---- about the Go source as it is now (re-checked against the regenerated table) ---- *)
 
 (* THE obligation a forgotten child / symbol in any Accept method, or a node kind added later,
